@@ -15,4 +15,4 @@ Extraction "model.ml"
   ConcChannel.cc_init ConcChannel.cc_step ConcChannel.wf_cprog
   RunLoop.r_init RunLoop.r_step
   ConcExec.e_init ConcExec.e_step
-  SrcAsync.a_init SrcAsync.a_step.
+  SrcAsync.a_init SrcAsync.a_step SrcAsync.w_init SrcAsync.w_step.
